@@ -9,7 +9,8 @@ Open Scope N_scope.
 Definition obs := list (list action * bool).
 Definition flat (o : obs) : list action := flat_map fst o.
 
-Record cfg := { c_mw : bool; c_upload : bool; c_ip : str; c_fp : option str; c_hres : hres }.
+(* c_upfail: what calling the upload handler does (Model.ServerProto, Section variable up_call_fails) *)
+Record cfg := { c_mw : bool; c_upload : bool; c_ip : str; c_fp : option str; c_hres : hres; c_upfail : option str }.
 
 (* bytes delivered to the protocol before the connection was lost *)
 Fixpoint stream (evs : list event) : str :=
@@ -23,7 +24,7 @@ Definition has_lost (evs : list event) : bool :=
   existsb (fun e => match e with ELost => true | _ => false end) evs.
 
 Definition is_invocation (a : action) : bool :=
-  match a with AHandler _ | AUpload _ _ _ => true | _ => false end.
+  match a with AHandler _ | AUpload _ _ _ | AUploadCall _ _ => true | _ => false end.
 Definition is_consult (a : action) : bool := match a with AMw _ _ _ _ => true | _ => false end.
 Definition spawn_id (a : action) : option nat :=
   match a with AMw i _ _ _ | AHandlerTask i | AUpload i _ _ => Some i | _ => None end.
